@@ -127,3 +127,25 @@ _c("transpose",
    modifies=["param:self"], havoc={"self.name": "str", "self.octave": "int"},
    split=[{"bind": {"up": u}, "assume": "interval[len(interval) - 1] == %r" % d} for u in (True, False) for d in "1234567"],
    properties=["C11"], battery="note_transpose")
+
+# Helmholtz notation: the name (lower case from octave 3 up), then one comma per octave below 2 or one prime per octave above 3
+_HM = "((2 - self.octave) if self.octave < 2 else ((self.octave - 3) if self.octave > 3 else 0))"
+_c("to_shorthand",
+   params={"self": "Note"}, requires=VALID, returns="str", modifies=[],
+   ensures=[("length", "len(result) == len(self.name) + %s" % _HM),
+            ("letter-capital-below-octave-3-else-small",
+             "result[0] == (self.name[0] if self.octave < 3 else lower_letter(self.name[0]))"),
+            ("accidentals-kept", "all([result[j] == self.name[j] for j in range(1, len(self.name))])"),
+            ("commas-below-or-primes-above",
+             "all([result[len(self.name) + j] == (',' if self.octave < 2 else \"'\") for j in range(%s)])" % _HM)],
+   loops={1: dict(ghost={"R0": "res", "O0": "o"},
+                  inv=[("prefix-kept", "res[:len(R0)] == R0"),
+                       ("marks-so-far", "all([res[len(R0) + j] == ',' for j in range(o - O0)])"),
+                       ("length", "len(res) == len(R0) + (o - O0)"), ("counter", "O0 <= o and (O0 >= -1 or o <= -1) and (O0 < -1 or o == O0)")],
+                  decreases="-o"),
+          2: dict(ghost={"R1": "res", "O1": "o"},
+                  inv=[("prefix-kept", "res[:len(R1)] == R1"),
+                       ("marks-so-far", "all([res[len(R1) + j] == \"'\" for j in range(O1 - o)])"),
+                       ("length", "len(res) == len(R1) + (O1 - o)"), ("counter", "o <= O1 and (O1 <= 0 or o >= 0) and (O1 > 0 or o == O1)")],
+                  decreases="o")},
+   properties=["C10"], battery="notes")
